@@ -34,6 +34,8 @@ def render(items, doctype: str, indent: str = "  "):
         lines.append('<!DOCTYPE root SYSTEM "root.dtd">')
     elif doctype == "public":
         lines.append('<!DOCTYPE root PUBLIC "-//EX//DTD Example//EN" "root.dtd">')
+    elif doctype == "subset":
+        lines += ["<!DOCTYPE root [", '  <!ATTLIST o d CDATA "dflt">', "]>"]
     lines.append('<root xmlns:ns="urn:example">')
     where = {}
 
